@@ -1,0 +1,58 @@
+//go:build verif
+
+package arch
+
+// Contracts checked by /verif (vcgo). Comment-only: no executable code.
+// C13: the architecture graph has one node per project type (Main excluded) and an edge A -> B exactly when A implements
+// or extends B, has a field (recorded class-level reference) of type B, or a method of A other than main calls a project type B != A.
+
+//@ spec Src(c core_domain.CodeDataStruct) string := c.Package + "." + c.NodeName
+//@ spec EKey(a string, b string) string := a + "->" + b
+//@ spec Dst(c core_domain.CodeCall) string := c.Package + "." + c.NodeName
+
+//@ spec rec ImplIn(src string, impls []string, n int, k string) bool := n <= 0 ? false : (ImplIn(src, impls, n - 1, k) || EKey(src, impls[n - 1]) == k)
+//@ spec rec FieldIn(src string, cs []core_domain.CodeCall, n int, k string) bool := n <= 0 ? false : (FieldIn(src, cs, n - 1, k) || EKey(src, Dst(cs[n - 1])) == k)
+//@ spec rec CallIn(src string, cs []core_domain.CodeCall, idm map[string]core_domain.CodeDataStruct, n int, k string) bool :=
+//@    n <= 0 ? false : (CallIn(src, cs, idm, n - 1, k) || (src != Dst(cs[n - 1]) && (Dst(cs[n - 1]) in idm) && EKey(src, Dst(cs[n - 1])) == k))
+//@ spec rec MethIn(src string, fs []core_domain.CodeFunction, idm map[string]core_domain.CodeDataStruct, n int, k string) bool :=
+//@    n <= 0 ? false : (MethIn(src, fs, idm, n - 1, k) || (fs[n - 1].Name != "main" && CallIn(src, fs[n - 1].FunctionCalls, idm, len(fs[n - 1].FunctionCalls), k)))
+//@ spec ClzEdge(c core_domain.CodeDataStruct, idm map[string]core_domain.CodeDataStruct, k string) bool :=
+//@    ImplIn(Src(c), c.Implements, len(c.Implements), k) || FieldIn(Src(c), c.FunctionCalls, len(c.FunctionCalls), k) ||
+//@    (c.Extend != "" && EKey(Src(c), c.Extend) == k) || MethIn(Src(c), c.Functions, idm, len(c.Functions), k)
+//@ spec rec EdgeIn(ds []core_domain.CodeDataStruct, idm map[string]core_domain.CodeDataStruct, n int, k string) bool :=
+//@    n <= 0 ? false : (EdgeIn(ds, idm, n - 1, k) || (ds[n - 1].NodeName != "Main" && ClzEdge(ds[n - 1], idm, k)))
+//@ spec rec NodeIn(ds []core_domain.CodeDataStruct, n int, s string) bool := n <= 0 ? false : (NodeIn(ds, n - 1, s) || (ds[n - 1].NodeName != "Main" && Src(ds[n - 1]) == s))
+
+//@ func addCallInField
+//@ requires fullGraph.RelationList != nil
+//@ modifies fullGraph.RelationList
+//@ ensures forall k string :: {k in fullGraph.RelationList} (k in fullGraph.RelationList) <==> ((k in old(fullGraph.RelationList)) || FieldIn(src, clz.FunctionCalls, len(clz.FunctionCalls), k))
+//@ loop 1 invariant fullGraph.RelationList != nil
+//@ loop 1 invariant forall k string :: {k in fullGraph.RelationList} {FieldIn(src, clz.FunctionCalls, #i, k)} (k in fullGraph.RelationList) <==> ((k in old(fullGraph.RelationList)) || FieldIn(src, clz.FunctionCalls, #i, k))
+
+//@ func addExtend
+//@ requires fullGraph.RelationList != nil
+//@ modifies fullGraph.RelationList
+//@ ensures forall k string :: {k in fullGraph.RelationList} (k in fullGraph.RelationList) <==> ((k in old(fullGraph.RelationList)) || (clz.Extend != "" && EKey(src, clz.Extend) == k))
+
+//@ func addCallInMethod
+//@ requires fullGraph.RelationList != nil
+//@ modifies fullGraph.RelationList
+//@ ensures forall k string :: {k in fullGraph.RelationList} (k in fullGraph.RelationList) <==> ((k in old(fullGraph.RelationList)) || MethIn(src, clz.Functions, identifiersMap, len(clz.Functions), k))
+//@ loop 1 invariant fullGraph.RelationList != nil
+//@ loop 1 invariant forall k string :: {k in fullGraph.RelationList} {MethIn(src, clz.Functions, identifiersMap, #i, k)} (k in fullGraph.RelationList) <==> ((k in old(fullGraph.RelationList)) || MethIn(src, clz.Functions, identifiersMap, #i, k))
+//@ loop 2 invariant fullGraph.RelationList != nil
+//@ loop 2 invariant forall k string :: {k in fullGraph.RelationList} {CallIn(src, method.FunctionCalls, identifiersMap, #i, k)} (k in fullGraph.RelationList) <==>
+//@    ((k in old(fullGraph.RelationList)) || MethIn(src, clz.Functions, identifiersMap, #i1, k) || CallIn(src, method.FunctionCalls, identifiersMap, #i, k))
+
+//@ func ArchApp.Analysis
+//@ ensures result != nil && (*result).NodeList != nil && (*result).RelationList != nil
+//@ ensures forall s string :: {s in (*result).NodeList} (s in (*result).NodeList) <==> NodeIn(deps, len(deps), s)
+//@ ensures forall k string :: {k in (*result).RelationList} (k in (*result).RelationList) <==> EdgeIn(deps, identifiersMap, len(deps), k)
+//@ loop 1 invariant (*fullGraph).NodeList != nil && (*fullGraph).RelationList != nil
+//@ loop 1 invariant forall s string :: {s in (*fullGraph).NodeList} {NodeIn(deps, #i, s)} (s in (*fullGraph).NodeList) <==> NodeIn(deps, #i, s)
+//@ loop 1 invariant forall k string :: {k in (*fullGraph).RelationList} {EdgeIn(deps, identifiersMap, #i, k)} (k in (*fullGraph).RelationList) <==> EdgeIn(deps, identifiersMap, #i, k)
+//@ loop 2 invariant (*fullGraph).NodeList != nil && (*fullGraph).RelationList != nil
+//@ loop 2 invariant forall s string :: {s in (*fullGraph).NodeList} (s in (*fullGraph).NodeList) <==> (NodeIn(deps, #i1, s) || s == src)
+//@ loop 2 invariant forall k string :: {k in (*fullGraph).RelationList} {ImplIn(src, clz.Implements, #i, k)} (k in (*fullGraph).RelationList) <==>
+//@    (EdgeIn(deps, identifiersMap, #i1, k) || ImplIn(src, clz.Implements, #i, k))
